@@ -150,6 +150,27 @@ func checkC01(tier string) int {
 			cfgSeen[s.Name] = true
 		}
 		mu.Unlock()
+		// the second stranger also has mempool traffic, as every real node has: it checks every transaction
+		// of the block before the block arrives and re-checks some while the block executes (node-local
+		// circumstances that are not part of the block sequence)
+		var lastSeen []byte
+		cfg.PerReplica = func(run *hist.Runner, h int64, idx int, base proto.Recipe, sofar *hist.Block) *proto.Recipe {
+			if idx != 3 {
+				return nil
+			}
+			alt := base
+			alt.Inject = map[string][][]byte{}
+			if len(base.Txs) > 0 {
+				alt.Inject["before:BeginBlock"] = base.Txs
+				alt.Inject["after:DeliverTx:0"] = base.Txs[len(base.Txs)-1:]
+				alt.Inject["before:EndBlock"] = base.Txs[:1]
+				lastSeen = base.Txs[len(base.Txs)-1]
+			} else if lastSeen != nil {
+				alt.Inject["before:EndBlock"] = [][]byte{lastSeen}
+				alt.Inject["before:Commit"] = [][]byte{lastSeen}
+			}
+			return &alt
+		}
 		var bootChecked bool
 		cfg.OnBlock = func(run *hist.Runner, blk *hist.Block) bool {
 			if !bootChecked {
